@@ -169,6 +169,8 @@ func runC20(c *Ctx) {
 		dumpSearchFlags(c)
 	}
 	checkSearchFlags(c, "C20-R3", "internal/checks.RuleDependencyCheck.Check")
+	c20RemovedRulesNeedNoFile(c, "C20-R4")
+	c20EverySelectorReturned(c, "C20-R3")
 	c20TreeComplete(c, "C20-R3")
 	if chk != nil {
 		info := chk.Pkg.TypesInfo
@@ -764,4 +766,113 @@ func c20TreeComplete(c *Ctx, R string) {
 	}
 	c.Check(why == "", R, "tree:every child reported by the vendored parser becomes a node", loop.Pos(), "unconditional append(tree(child))",
 		why+": the part of the query below that child is invisible to every search over the tree, so a rule that uses the removed metric only there is not listed as a dependant")
+}
+
+// c20RemovedRulesNeedNoFile: a problem about a removed rule is anchored on the
+// old version of its file (AnchorBefore), and that file may be gone at HEAD —
+// the whole file was deleted or renamed. Every place in internal/reporter that
+// reads the rule file does so only for problems anchored on the new version:
+// the readFile call stands under `Anchor == checks.AnchorAfter`. Otherwise the
+// console reporter fails with "no such file" and the warning (and everything
+// sorted after it) is never printed.
+func c20RemovedRulesNeedNoFile(c *Ctx, R string) {
+	rep := c.P.Pkg("internal/reporter")
+	if rep == nil {
+		return
+	}
+	info := rep.TypesInfo
+	n := 0
+	for _, fi := range c.P.AllFuncs() {
+		if fi.Pkg != rep || fi.Decl.Body == nil || c.P.IsTestFile(fi.Decl.Pos()) {
+			continue
+		}
+		pm := parentMap(fi.Decl.Body)
+		seq := 0
+		ast.Inspect(fi.Decl.Body, func(nd ast.Node) bool {
+			call, ok := nd.(*ast.CallExpr)
+			if !ok {
+				return true
+			}
+			fn := Callee(info, call)
+			isRead := isCallTo(info, call, "internal/reporter.readFile")
+			if fn != nil && fn.Pkg() != nil && fn.Pkg().Path() == "os" && (fn.Name() == "ReadFile" || fn.Name() == "Open") && fi.Obj.Name() != "readFile" {
+				isRead = true
+			}
+			if !isRead {
+				return true
+			}
+			n++
+			seq++
+			guarded := false
+			for _, g := range lexicalGuards(pm, call, fi.Decl.Body) {
+				ast.Inspect(g.E, func(m ast.Node) bool {
+					be, isBin := m.(*ast.BinaryExpr)
+					if !isBin {
+						return true
+					}
+					for _, pr := range [][2]ast.Expr{{be.X, be.Y}, {be.Y, be.X}} {
+						if fieldSel(info, pr[0], "internal/checks.Problem", "Anchor") {
+							if k := constObj(info, pr[1]); k != nil {
+								if (k.Name() == "AnchorAfter" && be.Op == token.EQL && g.Truth) || (k.Name() == "AnchorBefore" && be.Op == token.NEQ && g.Truth) ||
+									(k.Name() == "AnchorBefore" && be.Op == token.EQL && !g.Truth) || (k.Name() == "AnchorAfter" && be.Op == token.NEQ && !g.Truth) {
+									guarded = true
+								}
+							}
+						}
+					}
+					return true
+				})
+			}
+			c.Check(guarded, R, strings.TrimPrefix(fi.Name, "internal/reporter.")+":rule file read only for problems on the new version#"+itoa(seq), call.Pos(), "under Anchor == AnchorAfter",
+				"the rule file is read for every problem, also for one about a removed rule: when the file that held the removed rule no longer exists at HEAD the read fails, the reporter returns the error, and the `rule was removed but others depend on it` warning is never shown")
+			return true
+		})
+	}
+	c.Check(n >= 3, R, "rule file reads in internal/reporter enumerated", token.NoPos, itoa(n), "fewer than 3 reads found")
+}
+
+// c20EverySelectorReturned: utils.HasVectorSelector hands back every selector of
+// the tree, one entry per occurrence. The selector of the node itself is
+// appended under nothing but the type test, and what the recursive call found
+// for a child is appended whole and unconditionally. A filter ("each selector
+// only once") needs an equality on selectors, and any equality short of the
+// full matcher list drops `ALERTS{alertname="B"}` after `ALERTS{alertname="A"}`:
+// the rule behind the second selector can then be removed without a warning.
+func c20EverySelectorReturned(c *Ctx, R string) {
+	fi := c.MustFunc(R, "internal/parser/utils.HasVectorSelector")
+	if fi == nil {
+		return
+	}
+	info := fi.Pkg.TypesInfo
+	pm := parentMap(fi.Decl.Body)
+	var loop *ast.RangeStmt
+	ast.Inspect(fi.Decl.Body, func(nd ast.Node) bool {
+		if rs, ok := nd.(*ast.RangeStmt); ok && loop == nil && fieldSel(info, rs.X, "internal/parser.PromQLNode", "Children") {
+			loop = rs
+		}
+		return true
+	})
+	if loop == nil {
+		c.Bad(R, "HasVectorSelector:every child is searched", fi.Decl.Pos(), "no loop over node.Children")
+		return
+	}
+	why := loopReachesCall(info, pm, loop.Body, "the recursive search", func(cl *ast.CallExpr) bool { return Callee(info, cl) == fi.Obj })
+	whole := false
+	ast.Inspect(loop.Body, func(nd ast.Node) bool {
+		if call, ok := nd.(*ast.CallExpr); ok && exprStr(call.Fun) == "append" && call.Ellipsis.IsValid() && len(call.Args) == 2 {
+			if rc, isCall := ast.Unparen(call.Args[1]).(*ast.CallExpr); isCall && Callee(info, rc) == fi.Obj {
+				whole = true
+			} else if id, isID := ast.Unparen(call.Args[1]).(*ast.Ident); isID {
+				if d, isCall := singleDef(info, fi.Decl.Body, id).(*ast.CallExpr); isCall && Callee(info, d) == fi.Obj {
+					whole = true
+				}
+			}
+		}
+		return true
+	})
+	if why == "" && !whole {
+		why = "what the recursive search returns is not appended whole (`append(vs, found...)`)"
+	}
+	c.Check(why == "", R, "HasVectorSelector:every selector of every child is returned", loop.Pos(), "append(vs, HasVectorSelector(child)...)",
+		why+": selectors are filtered on the way up, so an expression that mentions two alerts (or two metrics) through selectors of the same shape yields only the first, and removing the rule behind the other is not reported")
 }
